@@ -5,11 +5,14 @@
    each checked; a destination failing before the end of the document makes the writer fail, and without a
    fault every byte is handed over. *)
 From Coq Require Import List NArith Bool Arith.
-From Astisub Require Import Kit.Base Kit.Scan Kit.IOW Model.Srt Proofs.SrtIOProofs.
+From Astisub Require Import Kit.Base Kit.Scan Kit.IOW Model.Srt Model.Vtt Proofs.SrtIOProofs Proofs.VttIOProofs.
 Import ListNotations.
 
 Theorem C18_read_srt_fault : forall ls, exists k, read_srt_lines ls true = Err k.
 Proof. exact read_srt_fault. Qed.
+Theorem C18_read_vtt_fault : forall ls, exists k, read_vtt_lines ls true = Err k.
+Proof. exact read_vtt_fault. Qed.
+
 Theorem C18_writes_fault : forall ws k, (k < total ws)%nat -> run_writes ws (fail_at k) 0 = Err EIO.
 Proof. exact writes_fault. Qed.
 Theorem C18_writes_complete : forall ws, run_writes ws ok_dest 0 = Ok (total ws).
@@ -24,3 +27,4 @@ Print Assumptions C18_writes_fault.
 Print Assumptions C18_writes_complete.
 Print Assumptions C18_write_srt_fault.
 Print Assumptions C18_write_srt_complete.
+Print Assumptions C18_read_vtt_fault.
